@@ -1408,8 +1408,223 @@ theorem C01_counterexample_condeq_nonint_rhs :
   · simp [Ctx.eff, Ctx.hasNeg, Ctx.hasPos, neqPred]; grind
 
 
+
+/-! ## implication `c ==> t else e`  →  `And(Or(!c, t), Or(c, e))` -/
+
+theorem compl_info {B : Bnds} {c : Var} (hl : (B c).lb = some 0) (hu : (B c).ub = some 1) :
+    (affBnd B [(-1, c)] 1).lb = some (-1 * 1 + 0 + 1) ∧ (affBnd B [(-1, c)] 1).ub = some (-1 * 0 + 0 + 1) ∧
+    (affBnd B [(-1, c)] 1).isInt = (((true && (B c).isInt && isIntQ (-1)) && isIntQ 1)) := by
+  have hneg : ¬ ((0 : Rat) ≤ -1) := by grind
+  simp [affBnd, linBnd, hneg, hl, hu, optAdd, optScale]
+
+theorem compl_binary {B : Bnds} {c : Var} {q : Rat}
+    (hl : (B c).lb = some 0) (hu : (B c).ub = some 1) (hi : (B c).isInt = true)
+    (h : (affBnd B [(-1, c)] 1).admits q) : q = 0 ∨ q = 1 := by
+  obtain ⟨i1, i2, i3⟩ := compl_info (B := B) (c := c) hl hu
+  apply binary_admits
+  obtain ⟨h1, h2, h3⟩ := h
+  refine ⟨?_, ?_, ?_⟩
+  · intro l hl'; simp [VarInfo.binary] at hl'; subst hl'; have := h1 _ i1; grind
+  · intro u hu'; simp [VarInfo.binary] at hu'; subst hu'; have := h2 _ i2; grind
+  · intro _; apply h3; rw [i3]; simp [hi, isIntQ]
+
+theorem compl_admits {B : Bnds} {c : Var} {q : Rat}
+    (hl : (B c).lb = some 0) (hu : (B c).ub = some 1) (h : q = 0 ∨ q = 1) :
+    (affBnd B [(-1, c)] 1).admits q := by
+  obtain ⟨i1, i2, _⟩ := compl_info (B := B) (c := c) hl hu
+  refine ⟨?_, ?_, ?_⟩
+  · intro l hl'; rw [i1] at hl'; simp at hl'; subst hl'; rcases h with h | h <;> rw [h] <;> grind
+  · intro u hu'; rw [i2] at hu'; simp at hu'; subst hu'; rcases h with h | h <;> rw [h] <;> grind
+  · intro _; rcases h with h | h
+    · rw [h]; exact isIntVal_zero
+    · rw [h]; exact isIntVal_one
+
+theorem b2r_zero_one (p : Prop) [Decidable p] : b2r p = 0 ∨ b2r p = 1 := by unfold b2r; split <;> simp
+
+def implDom (res c t e : Var) (x : Asg) : Prop :=
+  (x res = 0 ∨ x res = 1) ∧ (x c = 0 ∨ x c = 1) ∧ (x t = 0 ∨ x t = 1) ∧ (x e = 0 ∨ x e = 1)
+
+/-- implication with a non-fixed result (the case with a fixed-true result — two disjunctions fixed true —
+is modelled and correspondence-checked, not proved) -/
+theorem C01_gadget_impl (res c t e : Var) (ctx : Ctx) (B : Bnds) (n : Nat)
+    (hr : res < n) (hc : c < n) (ht : t < n) (he : e < n)
+    (hl : (B c).lb = some 0) (hu : (B c).ub = some 1) (hi : (B c).isInt = true)
+    (hft : (B t).isFixed = false) (hfe : (B e).isFixed = false) (hfr : (B res).isFixed = false) :
+    Exact (gImpl res c t e ctx B n) n (implDom res c t e)
+      (fun x => rel ctx (x res) (Fun.val x (.impl c t e))) := by
+  have hb : ((B c).lb == some 0 && (B c).ub == some 1) = true := by simp [hl, hu]
+  constructor
+  · intro y ⟨hyr, hyc, hyt, hye⟩ haux hcs
+    simp only [gImpl, hb, hft, hfe, hfr, Bool.not_true, Bool.false_eq_true, if_false, Bool.or_self,
+      Bool.false_and, auxOk, and_true] at haux hcs
+    obtain ⟨a0, a1, a2⟩ := haux
+    have b0 := compl_binary hl hu hi a0
+    have b1 := binary_admits a1
+    have b2 := binary_admits a2
+    have c0 := hcs (.func n ctx.eff.plus (.affine [(-1, c)] 1)) (by simp)
+    have c1 := hcs (.func (n + 1) ctx.eff.plus (.or [n, t])) (by simp)
+    have c2 := hcs (.func (n + 2) ctx.eff.plus (.or [c, e])) (by simp)
+    have c3 := hcs (.func res ctx.eff (.and [n + 1, n + 2])) (by simp)
+    have e12 : n + 1 + 1 = n + 2 := rfl
+    rw [e12] at b2
+    cases ctx <;>
+      simp [Con.sat, rel, req, Ctx.eff, Ctx.plus, Fun.val, b2r] at c0 c1 c2 c3 ⊢ <;>
+      rcases hyc with h1 | h1 <;> rcases b0 with h2 | h2 <;> rcases b1 with h3 | h3 <;> rcases b2 with h4 | h4 <;>
+      simp [h1, h2, h3, h4] at c0 c1 c2 c3 ⊢ <;> grind
+  · intro x ⟨hxr, hxc, hxt, hxe⟩ h
+    let v0 : Rat := 1 - x c
+    let v1 : Rat := b2r (v0 = 1 ∨ x t = 1)
+    let v2 : Rat := b2r (x c = 1 ∨ x e = 1)
+    have en : ∀ v, v < n → v ≠ n ∧ v ≠ n + 1 ∧ v ≠ n + 2 := by intro v hv; omega
+    refine ⟨fun v => if v = n then v0 else if v = n + 1 then v1 else if v = n + 2 then v2 else x v, ?_, ?_, ?_⟩
+    · intro v hv; simp [(en v hv).1, (en v hv).2.1, (en v hv).2.2]
+    · simp only [gImpl, hb, hft, hfe, hfr, Bool.not_true, Bool.false_eq_true, if_false, Bool.or_self,
+        Bool.false_and, auxOk, and_true, if_true]
+      have k1 : n + 1 ≠ n := by omega
+      have k2 : n + 1 + 1 ≠ n := by omega
+      have k3 : n + 1 + 1 ≠ n + 1 := by omega
+      have k4 : n + 1 + 1 = n + 2 := rfl
+      refine ⟨compl_admits hl hu ?_, ?_, ?_⟩
+      · rcases hxc with h0 | h0 <;> simp [v0, h0] <;> grind
+      · simp only [k1, if_false, if_true]; exact admits_binary_of (b2r_zero_one _)
+      · simp only [k2, k3, k4, if_false, if_true]; exact admits_binary_of (b2r_zero_one _)
+    · have k1 : n + 1 ≠ n := by omega
+      have k2 : n + 2 ≠ n := by omega
+      have k3 : n + 2 ≠ n + 1 := by omega
+      have r0 := en res hr
+      have c0' := en c hc
+      have t0 := en t ht
+      have e0 := en e he
+      simp only [gImpl, hb, hft, hfe, hfr, Bool.not_true, Bool.false_eq_true, if_false, Bool.or_self,
+        Bool.false_and]
+      intro k hk
+      simp only [List.mem_cons, List.not_mem_nil, or_false] at hk
+      rcases hk with hk | hk | hk | hk <;> subst hk <;>
+        cases ctx <;>
+        simp [Con.sat, rel, req, Ctx.eff, Ctx.plus, Fun.val, b2r, k1, k2, k3, r0, c0', t0, e0, v0, v1, v2] at h ⊢ <;>
+        rcases hxc with h1 | h1 <;> rcases hxt with h2 | h2 <;> rcases hxe with h3 | h3 <;> rcases hxr with h4 | h4 <;>
+        simp [h1, h2, h3, h4] at h ⊢ <;> grind
+
+
+
+/-! ## Composition, restricted fragment (PARTIAL): one functional constraint nested once under a root
+linear range constraint
+
+NL constraint:  `lb ≤ body[res := F(args)] ≤ ub`, where `body` is linear over original variables and the
+result variable `res` of one functional constraint `res = F(args)` (arguments are original variables).
+Delivered: the root range constraint over `res` itself + whatever the conversion step `o` emitted for `F`
+in the context `ctx` stored on it.  Hypotheses tie the pieces exactly as the converter does:
+`hctx`  — the stored context includes what `PropagateResult` of the root constraint assigns to `res`;
+`hex`   — the step is exact for that context (any `C01_gadget_*` theorem);
+`hF`    — `F` does not read `res` or auxiliary variables.
+Conclusion: a point is feasible for the NL constraint iff values for `res` and the auxiliaries exist that
+satisfy the delivered constraints (projection equivalence for this fragment). -/
+
+def setVar (x : Asg) (v : Var) (q : Rat) : Asg := fun w => if w = v then q else x w
+
+theorem req_refl (c : Ctx) (v : Rat) : req c v v := by cases c <;> simp [req]
+theorem rel_refl (c : Ctx) (v : Rat) : rel c v v := req_refl _ v
+
+theorem rel_to_req {ctx c : Ctx} (h : c ≤ ctx.eff) {r v : Rat} (hr : rel ctx r v) : req c r v :=
+  req_mono h hr
+
+theorem propLin_mem (ctx : Ctx) (body : Lin) (p : Var × Ctx) (h : p ∈ propLin ctx body) :
+    ∃ c, (c, p.1) ∈ body := by
+  induction body with
+  | nil => simp [propLin] at h
+  | cons t tl ih =>
+    obtain ⟨c, v⟩ := t
+    simp only [propLin] at h
+    split at h
+    · obtain ⟨c', hc'⟩ := ih h; exact ⟨c', by simp [hc']⟩
+    · simp only [List.mem_cons] at h
+      rcases h with h | h
+      · subst h; exact ⟨c, by simp⟩
+      · obtain ⟨c', hc'⟩ := ih h; exact ⟨c', by simp [hc']⟩
+
+theorem C01_compose_root_range_single_partial
+    (body : Lin) (lb ub : Option Rat) (res : Var) (n : Nat) (F : Fun) (ctx : Ctx) (o : Out) (D : Asg → Prop)
+    (hlb : ∀ l, lb = some l → -pracInf < l) (hub : ∀ u, ub = some u → u < pracInf)
+    (hres : res < n) (hbody : ∀ p ∈ body, p.2 < n)
+    (hctx : ∀ p ∈ propRangeLin body lb ub, p.1 = res → p.2 ≤ ctx.eff)
+    (hex : Exact o n D (fun x => rel ctx (x res) (F.val x)))
+    (hF : ∀ x x' : Asg, (∀ v, v < n → v ≠ res → x' v = x v) → F.val x' = F.val x)
+    (hDag : ∀ x x' : Asg, agree n x x' → D x → D x')
+    (x : Asg) (hD : D (setVar x res (F.val x))) :
+    inRange lb ub (evalLin (setVar x res (F.val x)) body) ↔
+      ∃ x' : Asg, (∀ v, v < n → v ≠ res → x' v = x v) ∧ D x' ∧ auxOk n x' o.vars ∧
+        (∀ c ∈ o.cons, c.sat x') ∧ inRange lb ub (evalLin x' body) := by
+  constructor
+  · intro hfeas
+    let x1 := setVar x res (F.val x)
+    have hFx1 : F.val x1 = F.val x := hF x x1 (by intro v _ hne; simp [x1, setVar, hne])
+    have hP : rel ctx (x1 res) (F.val x1) := by
+      rw [hFx1]; simp only [x1, setVar, if_true]; exact rel_refl _ _
+    obtain ⟨x', hag, hax, hcs⟩ := hex.2 x1 hD hP
+    refine ⟨x', ?_, ?_, hax, hcs, ?_⟩
+    · intro v hv hne; rw [hag v hv]; simp [x1, setVar, hne]
+    · exact hDag x1 x' hag hD
+    · rw [evalLin_agree hag hbody]; exact hfeas
+  · intro ⟨x', hag, hDx', hax, hcs, hfeas⟩
+    have hrel : rel ctx (x' res) (F.val x') := hex.1 x' hDx' hax hcs
+    have hFx' : F.val x' = F.val x := hF x x' hag
+    rw [hFx'] at hrel
+    apply C01_ctx_sound_range body lb ub x' (setVar x res (F.val x)) hlb hub _ hfeas
+    intro p hp
+    by_cases hpr : p.1 = res
+    · rw [hpr]; simp only [setVar, if_true]
+      exact rel_to_req (hctx p hp hpr) hrel
+    · have hlt : p.1 < n := by
+        obtain ⟨c, hc⟩ := propLin_mem _ body p hp
+        exact hbody (c, p.1) hc
+      simp only [setVar, hpr, if_false]
+      rw [hag p.1 hlt hpr]; exact req_refl _ _
+
+
+theorem plus_le_eff (c : Ctx) : c.plus ≤ c.eff := by cases c <;> decide
+
+/-- end-to-end instance of the fragment: `lb ≤ y + abs(z) ≤ ub` with `abs` linearised by `AbsConverter_MIP`
+in the context the root constraint propagates (`rangeCtx lb ub`): the delivered model (root row over the
+result variable `r` + the abs gadget's rows and flag) has the same feasible set projected on `(y, z)`. -/
+theorem C01_compose_example_abs (y z r n : Nat) (hy : y < n) (hz : z < n) (hr : r < n) (hyr : y ≠ r) (hzr : z ≠ r)
+    (lb ub : Option Rat) (hlb : ∀ l, lb = some l → -pracInf < l) (hub : ∀ u, ub = some u → u < pracInf)
+    (B : Bnds) (x : Asg) :
+    inRange lb ub (x y + (if x z ≤ 0 then - x z else x z)) ↔
+      ∃ x' : Asg, (∀ v, v < n → v ≠ r → x' v = x v) ∧ auxOk n x' (gAbs r z (rangeCtx lb ub) B n).vars ∧
+        (∀ c ∈ (gAbs r z (rangeCtx lb ub) B n).cons, c.sat x') ∧ inRange lb ub (x' y + x' r) := by
+  have h := C01_compose_root_range_single_partial [(1, y), (1, r)] lb ub r n (.abs z) (rangeCtx lb ub)
+    (gAbs r z (rangeCtx lb ub) B n) (fun _ => True) hlb hub hr
+    (by intro p hp; simp at hp; rcases hp with hp | hp <;> subst hp <;> assumption)
+    (by
+      intro p hp hpr
+      have h1 : ¬ ((1 : Rat) = 0) := by grind
+      have h2 : (0 : Rat) ≤ 1 := by grind
+      simp [propRangeLin, propLin, h1, h2] at hp
+      rcases hp with hp | hp
+      · subst hp; exact absurd hpr hyr
+      · subst hp; exact plus_le_eff _)
+    (C01_gadget_abs r z (rangeCtx lb ub) B n hr hz)
+    (by intro x1 x2 hag; simp only [Fun.val]; rw [hag z hz hzr])
+    (by intro _ _ _ _; trivial)
+    x trivial
+  have e1 : evalLin (setVar x r (Fun.val x (.abs z))) [(1, y), (1, r)]
+      = x y + (if x z ≤ 0 then - x z else x z) := by
+    simp [setVar, hyr, Fun.val]; grind
+  rw [e1] at h
+  rw [h]
+  constructor
+  · intro ⟨x', a, _, b, c, d⟩
+    refine ⟨x', a, b, c, ?_⟩
+    have : evalLin x' [(1, y), (1, r)] = x' y + x' r := by simp; grind
+    rw [← this]; exact d
+  · intro ⟨x', a, b, c, d⟩
+    refine ⟨x', a, trivial, b, c, ?_⟩
+    have : evalLin x' [(1, y), (1, r)] = x' y + x' r := by simp; grind
+    rw [this]; exact d
+
+
 /-!
-## Stage 2 (NOT proved here): composition
+## Stage 2 (NOT proved here beyond the single-nesting fragment above): composition
 
 `C01_validator_sound : validTrace t = true → ProjEquiv (orig t) (delivered t)` (DESIGN §5 C01).
 What exists: every conversion step listed above is locally exact for the relation its stored context
@@ -1421,8 +1636,11 @@ What is missing for the whole-model theorem:
   the late-context defect A19(b) lives here; bounds used by big-M steps are implied by final bounds);
 * `Fun.val` congruence (`f.val` reads only the variables of `f`) to chain steps over growing variable sets;
 * the induction over steps in reverse creation order and the objective clause;
+* the fragment proved above (`C01_compose_root_range_single_partial`, instance `C01_compose_example_abs`) covers one
+  functional constraint nested once under a root linear range constraint; nesting depth > 1, shared subexpressions,
+  several result variables in one body, logical roots and objectives are not covered;
 * gadgets not yet modelled: alldiff/unary encoding, complementarity, PL→SOS2, SOS2→ZZI, pow, general
-  products, min/max non-convex part (modelled, correspondence-checked, theorem not yet proved).
+  products; modelled and correspondence-checked without theorem: min/max, count, numberof, implication with fixed result.
 Until then whole-model equivalence is *validated per run* by checks/c01.py (projection-equivalence
 oracle on generated models), not proved.
 -/
